@@ -19,7 +19,7 @@ type C20 struct{}
 func (e *C20) ID() string    { return "C20" }
 func (e *C20) Level() string { return "exploration" }
 func (e *C20) Rule() string {
-	return "seeded *image.YCbCr images of the accepted sizes (64x64, 256x256) over subsampling {4:4:4, 4:2:2, 4:2:0, 4:4:0, 4:1:1, 4:1:0} x origins {(0,0),(8,8),(1,3),(-8,-8),(-5,3),(16,0)} x plane layouts {tight, parent-image strides (YStride > width), odd strides, only the chroma rows padded, only the luma rows padded} x contents {random, gradient, saturated chroma, constant}; the three planes have exactly the length the rectangle needs and each lies in its own mmap region flush against a PROT_NONE page (end and start placement alternate), the destination buffer likewise (also a deliberately 4-byte-misaligned one), and the pixel pools are given guarded buffers through the verif allocator hook. Calls: transforms32.ImageToGray (dispatching to the assembly where the package uses it), transforms32.AsmYCbCrToGray directly, transforms.Rgb2GrayFast, and NewPHash64/64Alt/256/256Alt. Oracle: every output pixel within 2.0 of the portable conversion formula evaluated by the harness at the corresponding absolute coordinates (YOffset/COffset of the image itself); no fault, all canary slack unchanged; each hash must be the median-threshold function (C19 oracle) of the coefficients of the luminance just verified. Non-trivial: every case (all convert >= 4096 pixels); distinct = distinct (ratio, origin, layout, size, placement, content)."
+	return "seeded *image.YCbCr images of the accepted sizes (64x64, 256x256) over subsampling {4:4:4, 4:2:2, 4:2:0, 4:4:0, 4:1:1, 4:1:0} x origins {(0,0),(8,8),(1,3),(-8,-8),(-5,3),(16,0)} x plane layouts {tight, parent-image strides (YStride > width), odd strides, only the chroma rows padded, only the luma rows padded, full-width band of a taller parent (tight strides, planes continue below the rectangle)} x contents {random, gradient, saturated chroma, constant}; the three planes have exactly the length the rectangle needs (the band layout: that plus the parent's rows below) and each lies in its own mmap region flush against a PROT_NONE page (end and start placement alternate), the destination buffer likewise (also a deliberately 4-byte-misaligned one), and the pixel pools are given guarded buffers through the verif allocator hook. Calls: transforms32.ImageToGray (dispatching to the assembly where the package uses it), transforms32.AsmYCbCrToGray directly, transforms.Rgb2GrayFast, and NewPHash64/64Alt/256/256Alt. Oracle: every output pixel within 2.0 of the portable conversion formula evaluated by the harness at the corresponding absolute coordinates (YOffset/COffset of the image itself); no fault, all canary slack unchanged; each hash must be the median-threshold function (C19 oracle) of the coefficients of the luminance just verified. Non-trivial: every case (all convert >= 4096 pixels); distinct = distinct (ratio, origin, layout, size, placement, content)."
 }
 func (e *C20) Assumptions() []string {
 	return []string{
@@ -39,7 +39,7 @@ func (e *C20) Plan(tier string, seed uint64) int {
 var c20Ratios = []image.YCbCrSubsampleRatio{image.YCbCrSubsampleRatio444, image.YCbCrSubsampleRatio422, image.YCbCrSubsampleRatio420,
 	image.YCbCrSubsampleRatio440, image.YCbCrSubsampleRatio411, image.YCbCrSubsampleRatio410}
 var c20Origins = [][2]int{{0, 0}, {8, 8}, {1, 3}, {-8, -8}, {-5, 3}, {16, 0}}
-var c20Layouts = []string{"tight", "parent", "odd", "chroma-padded", "luma-padded"}
+var c20Layouts = []string{"tight", "parent", "odd", "chroma-padded", "luma-padded", "band"}
 var c20Contents = []string{"random", "gradient", "saturated", "constant"}
 
 type c20img struct {
@@ -78,6 +78,14 @@ func c20Build(r *core.Rng, ratio image.YCbCrSubsampleRatio, org [2]int, layout, 
 	}
 	lenY := (s-1)*ys + s
 	lenC := (ch-1)*cs + cw
+	if layout == "band" {
+		// a full-width band of a taller parent, as SubImage returns it: tight strides, and the
+		// plane slices keep the parent's rows below the band (plane lengths say nothing about
+		// the subsampling)
+		tail := r.Pick(7, s, 2*s+3)
+		lenY += tail * ys
+		lenC += tail * cs
+	}
 	gy, gcb, gcr := mon.MustGuard(lenY, atEnd, 0), mon.MustGuard(lenC, !atEnd, 0), mon.MustGuard(lenC, atEnd, 0)
 	im := &image.YCbCr{Y: gy.Bytes(), Cb: gcb.Bytes(), Cr: gcr.Bytes(), YStride: ys, CStride: cs, SubsampleRatio: ratio, Rect: rect}
 	fill := func(p []byte, plane int) {
